@@ -300,6 +300,9 @@ def mass_properties(
         else:
             # otherwise get it from the integration
             center_mass = integrated[1:4] / volume
+    else:
+        # the override may be any sequence of three numbers
+        center_mass = np.asanyarray(center_mass, dtype=np.float64)
 
     result = MassProperties(
         density=density,
